@@ -517,20 +517,40 @@ VM_SPECS = r"""
         requires old(self).wf(),
         ensures final(self).same_but_registers(old(self)), final(self).cur_chunk() == old(self).cur_chunk(),
                 final(self).registers@.len() >= old(self).registers@.len(),
-                final(self).registers@.len() - old(self).registers@.len() <= 0x1000_0000_0000_0000,
+                // every AsTuple call site inside the runtime passes a (key, value) PAIR; a host that passes a
+                // longer slice to a function with an unpacked-tuple argument can push the frame base past
+                // register 255, where `next_register() as u8` truncates: latent, outside what is proved
+                final(self).registers@.len() - old(self).registers@.len() <= 2,
     { unimplemented!() }
 
     // assumed contract of call_callable (vm.rs, with call_koto_function/call_native_function/
     // call_generator): the frame is pushed last, after the arguments were validated, so a failed
-    // call pushes no frame; a native call pushes none either
+    // call pushes no frame; a native call pushes none either. Unlike the handlers above, a call made
+    // by the `Call` instruction has a frame base chosen by the compiler INSIDE the caller's window, and
+    // call_koto_function drops the temporaries above the call's arguments: the value stack may shrink,
+    // down to (not including) the frame base register
+    spec fn call_post(o: &KotoVm, f: &KotoVm, ok: bool, frame_base: u8) -> bool {
+        let n = o.call_stack@.len() as int;
+        &&& f.wf()
+        &&& f.execution_state == o.execution_state
+        &&& f.sequence_builders@ == o.sequence_builders@ && f.string_builders@ == o.string_builders@
+        // a native function drops the call's registers when it is done (call_native_function truncates to
+        // the frame base); a Koto function's frame keeps its base register
+        &&& f.registers@.len() >= o.register_base + frame_base as int
+        &&& (o.registers@.len() >= o.min_frame_registers ==> f.registers@.len() >= f.min_frame_registers)
+        &&& f.registers@.len() < 0x4000_0000_0000_0000
+        &&& (forall|i: int| 0 <= i < n - 1 ==> #[trigger] f.call_stack@[i] == o.call_stack@[i])
+        &&& (n > 0 ==> f.call_stack@.len() >= n && Self::frame_equiv(f.call_stack@[n - 1], o.call_stack@[n - 1]))
+        &&& ((f.call_stack@.len() == n && f.register_base == o.register_base)
+             || (ok && f.call_stack@.len() == n + 1 && !f.call_stack@.last().execution_barrier
+                    && f.call_stack@.last().register_base == o.register_base + frame_base as int
+                    && f.registers@.len() > o.register_base + frame_base as int))
+    }
     #[verifier::external_body]
     fn call_callable(&mut self, info: CallInfo, callable: KValue) -> (r: Result<()>)
         requires old(self).wf(),
-        ensures Self::op_post(old(self), final(self), r is Ok),
-                final(self).call_stack@.len() == old(self).call_stack@.len() + 1 ==>
-                    final(self).call_stack@.last().register_base == old(self).register_base + info.frame_base as int,
+        ensures Self::call_post(old(self), final(self), r is Ok, info.frame_base),
     { unimplemented!() }
-
     #[verifier::external_body]
     fn run_access(&mut self, a: u8, b: u8, key: KString) -> (r: Result<()>)
         requires old(self).wf(), ensures Self::op_post(old(self), final(self), r is Ok)
